@@ -112,6 +112,7 @@ func c13CountBoundary(c *c13Case) {
 func TestVerifC13Api(t *testing.T) {
 	rep := kit.NewReport("C13", "api")
 	defer rep.Write()
+	defer c13UnitWatchdog(rep, "api")()
 	rep.SetRule("group subscribes enter through apiServer.SubscribeInternal (Subscribe RPC body -> apiServer.subscribe -> partition.Subscribe) on a single-node server. Part 1: the exhaustive three-member hand-over (see unit handover; includes a member that re-subscribes with the SAME consumer id and the SAME epoch while its first subscription is live, cancelled, closed or ended, clean-up before/after) under the epoch alphabets plain (3..6), low (0,1,2), high (max-3..max) and mixed (0,1,max-1,max). Part 2: seeded programs of rounds of concurrent actions (see unit schedules), alphabet chosen per case. " + c13Rule + "; additionally: a well-formed group subscribe that is refused with ANY status code needs a possible holder with a strictly newer epoch")
 	rep.Assume("a subscription whose loop has left its body but whose group entry is not yet removed still counts as a possible holder for refusals (transient state); a stale entry found at quiescence with no ACTIVE subscription is only counted, not judged")
 	workers := kit.Workers()
